@@ -15,12 +15,20 @@ VARIABLES l,       \* next line
           ev,      \* the event just consumed (or Null)
           rew,     \* C10: tracked Reward of every delegate pool of the object under test
           rew0,    \*      ... before the event just consumed
-          sprew, sprew0   \* C10: tracked provider reward, after / before
+          sprew, sprew0,  \* C10: tracked provider reward, after / before
+          tb, tr, tsp,    \* C11: tracked delegate balances / rewards ("prov/delegate" -> n), provider rewards
+          tb0, tr0, tsp0  \*      ... before the event just consumed
 
-vars == <<l, ev, rew, rew0, sprew, sprew0>>
+c10vars == <<rew, rew0, sprew, sprew0>>
+c11vars == <<tb, tr, tsp, tb0, tr0, tsp0>>
+vars == <<l, ev, c10vars, c11vars>>
 Null == [ev |-> "none"]
 
-TraceInit == l = 1 /\ ev = Null /\ rew = <<>> /\ rew0 = <<>> /\ sprew = 0 /\ sprew0 = 0
+M(ps) == PutPairs(<<>>, ps, 1)
+Field(e, f, def) == IF f \in DOMAIN e THEN e[f] ELSE def
+
+TraceInit == /\ l = 1 /\ ev = Null /\ rew = <<>> /\ rew0 = <<>> /\ sprew = 0 /\ sprew0 = 0
+             /\ tb = <<>> /\ tr = <<>> /\ tsp = <<>> /\ tb0 = <<>> /\ tr0 = <<>> /\ tsp0 = <<>>
 
 IsEvent(e) == l <= Len(Trace) /\ Trace[l].ev = e /\ l' = l + 1
 
@@ -30,6 +38,8 @@ TraceReset ==
   /\ rew' = IF "rewards" \in DOMAIN Trace[l] THEN PutPairs(<<>>, Trace[l].rewards, 1) ELSE <<>>
   /\ sprew' = IF "sp_reward" \in DOMAIN Trace[l] THEN Trace[l].sp_reward ELSE 0
   /\ rew0' = <<>> /\ sprew0' = 0
+  /\ tb' = M(Field(Trace[l], "bal", <<>>)) /\ tr' = M(Field(Trace[l], "rew", <<>>)) /\ tsp' = M(Field(Trace[l], "sp", <<>>))
+  /\ tb0' = <<>> /\ tr0' = <<>> /\ tsp0' = <<>>
 
 (* C10: one call of DistributeRewards / DistributeRewardsRandN            *)
 TraceDist ==
@@ -39,13 +49,24 @@ TraceDist ==
        /\ rew0' = rew /\ sprew0' = sprew
        /\ rew' = PutPairs(rew, e.post, 1)            \* (values are capped at 2^29 by the recorder)
        /\ sprew' = e.sp_post
+  /\ UNCHANGED c11vars
+
+(* C11: one lock / unlock / collect transaction, reward payment or kill; the tracked pools become what  *)
+(* was read back from the MPT after the step                                                            *)
+TraceStake ==
+  /\ IsEvent("Stake")
+  /\ LET e == Trace[l] IN
+       /\ ev' = e
+       /\ tb0' = tb /\ tr0' = tr /\ tsp0' = tsp
+       /\ tb' = M(e.post_bal) /\ tr' = M(e.post_rew) /\ tsp' = M(e.sp_post)
+  /\ UNCHANGED c10vars
 
 TraceSkip ==
-  /\ l <= Len(Trace) /\ Trace[l].ev \notin {"Reset", "Dist"}
+  /\ l <= Len(Trace) /\ Trace[l].ev \notin {"Reset", "Dist", "Stake"}
   /\ l' = l + 1 /\ ev' = Null
-  /\ UNCHANGED <<rew, rew0, sprew, sprew0>>
+  /\ UNCHANGED <<c10vars, c11vars>>
 
-TraceNext == TraceReset \/ TraceDist \/ TraceSkip
+TraceNext == TraceReset \/ TraceDist \/ TraceStake \/ TraceSkip
 TraceSpec == TraceInit /\ [][TraceNext]_vars
 
 -----------------------------------------------------------------------------
@@ -97,4 +118,70 @@ C10_Proportional ==
   (Judged /\ ~Known) => IF ev.big
               THEN ((PaidEv /\ ev.n_pools > 0) => ev.prop_dev <= PropTol + ev.tol_hi)
               ELSE OblProportional(SPof(ev), ev.v, ev.kind, ev.n, ev.sp_inc, IncOf(ev))
+
+-----------------------------------------------------------------------------
+(* C11: every delegate pool of every provider is projected before and after each step as             *)
+(* "provider/delegate" -> balance / reward; sp = provider -> service-charge reward.                   *)
+IsStake == ev.ev = "Stake"
+PreB == M(ev.pre_bal)   PostB == M(ev.post_bal)
+PreR == M(ev.pre_rew)   PostR == M(ev.post_rew)
+PreS == M(ev.sp_pre)    PostS == M(ev.sp_post)
+K == ev.key                                  \* the caller's own pool at the addressed provider
+PK == {ev.prov_keys[i] : i \in 1..Len(ev.prov_keys)}   \* all pools of the addressed provider
+Val(m, k) == Get(m, k, 0)
+SameOutside(m1, m2, S) == \A x \in (DOMAIN m1 \cup DOMAIN m2) \ S : x \in DOMAIN m1 /\ x \in DOMAIN m2 /\ m1[x] = m2[x]
+Unch == PostB = PreB /\ PostR = PreR /\ PostS = PreS /\ ev.caller_delta = 0 /\ ev.wallet_delta = 0
+SvcCharge == IF ev.is_wallet THEN Val(PreS, ev.prov) ELSE 0
+StakeJudged == IsStake /\ ~Known
+
+\* nothing moves the pools between two recorded steps (harness sanity, exit 2)
+HarnessStakeContinuity == IsStake => (PreB = tb0 /\ PreR = tr0 /\ PreS = tsp0)
+
+\* a step touches only the caller's own pool (lock / unlock / collect) or the pools of the addressed
+\* provider (reward: rewards only; kill: balances only, never upwards); nobody else's pool appears,
+\* disappears or changes -- in particular nobody else can unlock a pool
+C11_Frame ==
+  StakeJudged =>
+     /\ SameOutside(PreS, PostS, {ev.prov})
+     /\ ev.op \in {"lock", "unlock", "collect"} => SameOutside(PreB, PostB, {K}) /\ SameOutside(PreR, PostR, {K})
+     /\ ev.op \in {"reward", "kill"} => SameOutside(PreB, PostB, PK) /\ SameOutside(PreR, PostR, PK)
+     /\ ev.op = "reward" => PostB = PreB /\ ev.wallet_delta = 0 /\ ev.caller_delta = 0
+     /\ ev.op = "kill" => /\ PostR = PreR /\ DOMAIN PostB = DOMAIN PreB /\ ev.wallet_delta = 0
+                           /\ \A x \in DOMAIN PreB : PostB[x] <= PreB[x]
+
+\* a lock moves exactly the value: staker -> contract wallet -> the staker's pool, within the bounds
+C11_Lock ==
+  (StakeJudged /\ ev.op = "lock") =>
+     IF ev.ok
+       THEN /\ ev.value > 0 /\ ev.value >= ev.min_lock
+            /\ K \in DOMAIN PostB /\ PostB[K] = Val(PreB, K) + ev.value /\ PostB[K] <= ev.max_stake
+            /\ (K \in DOMAIN PreB \/ ev.n_pools <= ev.max_del)
+            /\ Val(PostR, K) = Val(PreR, K) /\ Val(PostS, ev.prov) = Val(PreS, ev.prov)
+            /\ ev.caller_delta = -ev.value /\ ev.wallet_delta = ev.value
+       ELSE Unch
+
+\* an unlock pays the pool's balance plus its accrued reward (plus the provider's own reward when the
+\* caller is the delegate wallet) to the caller, out of the contract wallet, and removes the pool
+C11_Unlock ==
+  (StakeJudged /\ ev.op = "unlock") =>
+     IF ev.ok
+       THEN /\ K \in DOMAIN PreB
+            /\ ev.caller_delta = Val(PreB, K) + Val(PreR, K) + SvcCharge
+            /\ ev.wallet_delta = -ev.caller_delta
+            /\ K \notin DOMAIN PostB /\ K \notin DOMAIN PostR
+            /\ Val(PostS, ev.prov) = (IF ev.is_wallet THEN 0 ELSE Val(PreS, ev.prov))
+       ELSE Unch
+\* ... and the owner of an existing pool is not refused (the only refusal the contracts define is a
+\* blobber stake that must keep covering open offers)
+C11_OwnerCanUnlock ==
+  (StakeJudged /\ ev.op = "unlock" /\ ~ev.ok) => (K \notin DOMAIN PreB \/ ev.offers > 0)
+
+C11_Collect ==
+  (StakeJudged /\ ev.op = "collect") =>
+     IF ev.ok
+       THEN /\ ev.caller_delta = Val(PreR, K) + SvcCharge /\ ev.wallet_delta = -ev.caller_delta
+            /\ PostB = PreB /\ DOMAIN PostR = DOMAIN PreR /\ Val(PostR, K) = 0
+            /\ Val(PostS, ev.prov) = (IF ev.is_wallet THEN 0 ELSE Val(PreS, ev.prov))
+       ELSE Unch
+C11_NoPanic == IsStake => ~ev.panic
 =============================================================================
